@@ -5,12 +5,15 @@ package checks
 import (
 	"fmt"
 	"math/rand"
+	"os"
 	"runtime"
 	"sort"
+	"strings"
 	"sync"
 	"time"
 
 	"github.com/nspcc-dev/dbft/verifh/ev"
+	"github.com/nspcc-dev/dbft/verifh/mon"
 	"github.com/nspcc-dev/dbft/verifh/vnet"
 )
 
@@ -211,6 +214,18 @@ func Build(s Spec, mons ...vnet.Monitor) *Built {
 		}
 		cfg.MaxClock = time.Duration(cfg.Heights) * 200 * cfg.TPB
 		initTx = r.Intn(6)
+	case "silent-f", "partition", "amnesia":
+		cfg = baseConfig(s, r, Opt{Ns: []int{4, 4, 5, 6, 7, 7, 8, 10}, MinH: 2, MaxH: 4, AMEVModes: []int{0, 0, 1}})
+		cfg.K = vnet.Knobs{Sync: true, PDup: 0.03, PNewTx: 0.01, NotifyAll: true, PSyncLedger: []float64{0.002, 0.02}[r.Intn(2)], SlowNode: -1, ResetDelayNode: -1}
+		if r.Intn(2) == 0 {
+			cfg.LatMin, cfg.LatMax = cfg.TPB/100, cfg.TPB/50
+		}
+		if cfg.BaseHeight == 0 {
+			cfg.BaseHeight = 1
+		}
+		cfg.MaxSteps = 60000
+		cfg.MaxClock = 0
+		initTx = r.Intn(5)
 	default:
 		panic("unknown profile " + s.Profile)
 	}
@@ -222,7 +237,63 @@ func Build(s Spec, mons ...vnet.Monitor) *Built {
 			cfg.Roles[id] = vnet.Byzantine
 		}
 	}
+	f := (cfg.N - 1) / 3
+	switch s.Profile {
+	case "silent-f":
+		// up to F validators are silent from the start, always including the primaries of the first views
+		ns := 1 + r.Intn(f)
+		h1 := cfg.BaseHeight + 1
+		for v := 0; v < ns; v++ {
+			cfg.Roles[int((int64(h1)-int64(v)+int64(4*cfg.N))%int64(cfg.N))] = vnet.Silent
+		}
+		if r.Intn(3) == 0 { // ... or an arbitrary choice
+			cfg.Roles = make([]vnet.Role, cfg.N)
+			for _, id := range r.Perm(cfg.N)[:ns] {
+				cfg.Roles[id] = vnet.Silent
+			}
+		}
+	case "partition":
+		if r.Intn(3) == 0 && f > 0 { // additionally one silent validator
+			cfg.Roles[r.Intn(cfg.N)] = vnet.Silent
+		}
+	}
 	c := vnet.NewCluster(cfg, mons...)
+	switch s.Profile {
+	case "partition":
+		// an arbitrary cut set is completely cut off from an arbitrary event on, for an arbitrary period
+		cutAt := 1 + r.Intn(40*cfg.N)
+		size := 1 + r.Intn(cfg.N-1)
+		set := r.Perm(cfg.N)[:size]
+		dur := int64(cfg.TPB) * int64(1+r.Intn(80)) / 2
+		var cutClock int64 = -1
+		hooks.BeforeStep = func(c *vnet.Cluster) {
+			switch {
+			case cutClock < 0 && c.Steps >= cutAt:
+				c.SetCut(set)
+				cutClock = c.Clock
+			case cutClock >= 0 && len(c.Cut) > 0 && c.Clock >= cutClock+dur:
+				c.SetCut(nil)
+			}
+		}
+		hooks.Done = func(c *vnet.Cluster) bool { return cutClock >= 0 && len(c.Cut) == 0 && c.AllDone() }
+	case "amnesia":
+		// one validator (<= F) restarts with empty consensus state at arbitrary events
+		x := r.Intn(cfg.N)
+		at := []int{1 + r.Intn(40*cfg.N)}
+		if r.Intn(2) == 0 {
+			at = append(at, at[0]+1+r.Intn(30*cfg.N))
+		}
+		hooks.BeforeStep = func(c *vnet.Cluster) {
+			if len(at) > 0 && c.Steps >= at[0] {
+				at = at[1:]
+				if n := c.Nodes[x]; n.Live() {
+					c.NoteFault()
+					n.Restart()
+				}
+			}
+		}
+		hooks.Done = func(c *vnet.Cluster) bool { return len(at) == 0 && c.AllDone() }
+	}
 	if adv {
 		a := vnet.NewAdversary(c)
 		a.Withhold = []float64{0, 0.1, 0.5}[r.Intn(3)]
@@ -257,6 +328,27 @@ func Build(s Spec, mons ...vnet.Monitor) *Built {
 func (b *Built) Go() {
 	b.C.StartAll(!b.C.Cfg.K.FIFO)
 	b.C.Run(b.Hooks)
+	if Only >= 0 && os.Getenv("VERIF_DUMP") != "" {
+		Dump(b.C, os.Getenv("VERIF_DUMP"))
+	}
+}
+
+// Dump prints the final node states and the trace lines containing pat (debugging aid for replays).
+func Dump(c *vnet.Cluster, pat string) {
+	fmt.Println("cfg:", CfgSummary(c))
+	for _, e := range c.Trace {
+		if s := e.String(); pat == "all" || strings.Contains(s, pat) {
+			fmt.Println(s)
+		}
+	}
+	for _, n := range c.Nodes {
+		if n.D == nil {
+			fmt.Printf("n%d: no instance (%s)\n", n.ID, n.Role)
+			continue
+		}
+		fp := mon.Fingerprint(n)
+		fmt.Printf("n%d %s restarts=%d height=%d requested=%d pool=%d\n  %s\n  seen %s\n  cache %s\n  timer %s\n", n.ID, n.Role, n.Restarts, n.Height(), len(n.Requested), len(n.Pool), fp.Core, fp.LastSeen, fp.Cache, fp.Timer)
+	}
 }
 
 // CfgSummary renders the configuration for witnesses and samples.
